@@ -1,3 +1,648 @@
 package gosx
 
-func CheckMain(args []string) int { return 2 }
+import (
+	"bytes"
+	"encoding/json"
+	"flag"
+	"fmt"
+	"os"
+	"os/exec"
+	"path/filepath"
+	"sort"
+	"strconv"
+	"strings"
+	"time"
+)
+
+// ---------------------------------------------------------------------
+// check description
+
+type EntrySpec struct {
+	Func          string         `json:"func"`
+	Quick         map[string]int `json:"quick"`
+	Thorough      map[string]int `json:"thorough"`
+	MustReach     []string       `json:"must_reach"`
+	Preemptions   *int           `json:"preemptions"`
+	PreemptQuick  *int           `json:"preemptions_quick"`
+	MaxPaths      int            `json:"max_paths"`
+	Solver        string         `json:"solver"`
+	Replay        string         `json:"replay"` // native (default), engine, none
+	MaxSteps      int            `json:"max_steps"`
+	PoolAdv       bool           `json:"pool_adversarial"`
+	FixedClock    bool           `json:"fixed_clock"`
+	InvisAtomics  bool           `json:"invisible_atomics"`
+	MapReverse    bool           `json:"map_reverse"`
+	ThoroughOnly  bool           `json:"thorough_only"`
+	SymIndexLimit int            `json:"sym_index_limit"`
+	Bound         string         `json:"bound"`
+	SelfCheck     int            `json:"self_check"`
+	TimeoutMs     int            `json:"solver_timeout_ms"`
+}
+
+type UnitSpec struct {
+	Package string            `json:"package"`
+	Harness []string          `json:"harness"`
+	Stubs   map[string]string `json:"stubs"`
+	Entries []EntrySpec       `json:"entries"`
+}
+
+type CheckSpec struct {
+	Property     string     `json:"property"`
+	Units        []UnitSpec `json:"units"`
+	Assumptions  []string   `json:"assumptions"`
+	OutsideClaim []string   `json:"outside_claim"`
+	StubsDoc     []string   `json:"stubs_doc"`
+}
+
+type KnownFinding struct {
+	ID       string `json:"id"`
+	Property string `json:"property"`
+	What     string `json:"what"`
+}
+
+type KnownFile struct {
+	Findings []KnownFinding `json:"findings"`
+	Fixed    []string       `json:"fixed"`
+}
+
+type entryReport struct {
+	Func       string         `json:"func"`
+	Package    string         `json:"package"`
+	Params     map[string]int `json:"params"`
+	Bound      string         `json:"bound,omitempty"`
+	Paths      int            `json:"paths"`
+	Infeasible int            `json:"infeasible_paths"`
+	Blocks     int64          `json:"ssa_blocks"`
+	Queries    int            `json:"queries"`
+	Sat        int            `json:"sat"`
+	Unsat      int            `json:"unsat"`
+	Unknown    int            `json:"unknown"`
+	SolverS    float64        `json:"solver_s"`
+	WallS      float64        `json:"wall_s"`
+	Asserts    int            `json:"assert_sites_reached"`
+	Reached    []string       `json:"reach_tags"`
+	Violations int            `json:"violations"`
+	SelfCheck  int            `json:"native_agreement_runs"`
+	Solver     string         `json:"solver"`
+}
+
+// ---------------------------------------------------------------------
+
+func CheckMain(args []string) int {
+	fs := flag.NewFlagSet("check", flag.ExitOnError)
+	tier := fs.String("tier", "", "quick|thorough")
+	verif := fs.String("verif", "/verif", "")
+	repo := fs.String("repo", "/repo", "")
+	only := fs.String("entry", "", "run only this entry")
+	workers := fs.Int("workers", 16, "")
+	if len(args) == 0 {
+		fmt.Fprintln(os.Stderr, "usage: gosx check <property> [--tier quick|thorough]")
+		return 2
+	}
+	prop := args[0]
+	fs.Parse(args[1:])
+	if *tier == "" {
+		*tier = os.Getenv("VERIF_TIER")
+	}
+	if *tier == "" {
+		*tier = "quick"
+	}
+	seed := 0
+	if s := os.Getenv("VERIF_SEED"); s != "" {
+		seed, _ = strconv.Atoi(s)
+	}
+	c := &checker{prop: prop, tier: *tier, verif: *verif, repo: *repo, seed: seed, only: *only, workers: *workers}
+	return c.run()
+}
+
+type checker struct {
+	prop, tier, verif, repo, only string
+	seed, workers                 int
+	spec                          CheckSpec
+	known                         KnownFile
+	reports                       []entryReport
+	samples                       []interface{}
+	funcs                         map[string]bool
+	inconclusive                  []string
+	violLines                     []string
+	knownLines                    []string
+	violations                    int
+	states                        int
+	transitions                   int64
+	validated                     int
+	replayN                       int
+	queries, discharged           int
+	solverS                       float64
+	stubsUsed                     map[string]string
+}
+
+func (c *checker) run() int {
+	start := time.Now()
+	c.funcs = map[string]bool{}
+	c.stubsUsed = map[string]string{}
+	b, err := os.ReadFile(filepath.Join(c.verif, "checks", c.prop+".json"))
+	if err != nil {
+		fmt.Println("INCONCLUSIVE cannot read check description:", err)
+		return 2
+	}
+	if err := json.Unmarshal(b, &c.spec); err != nil {
+		fmt.Println("INCONCLUSIVE bad check description:", err)
+		return 2
+	}
+	if kb, err := os.ReadFile(filepath.Join(c.verif, "known_findings.json")); err == nil {
+		json.Unmarshal(kb, &c.known)
+	}
+	os.RemoveAll(filepath.Join(c.verif, "replays", c.prop))
+	for ui, u := range c.spec.Units {
+		c.runUnit(ui, u)
+	}
+	wall := time.Since(start).Seconds()
+	c.writeEvidence(wall)
+	for _, l := range c.knownLines {
+		fmt.Println(l)
+	}
+	for _, l := range c.violLines {
+		fmt.Println(l)
+	}
+	for _, m := range c.inconclusive {
+		fmt.Println("INCONCLUSIVE", m)
+	}
+	fmt.Printf("%s tier=%s entries=%d paths=%d queries=%d solver=%.1fs wall=%.1fs violations=%d inconclusive=%d native-agreement=%d\n",
+		c.prop, c.tier, len(c.reports), c.states, c.queries, c.solverS, wall, c.violations, len(c.inconclusive), c.validated)
+	if c.violations > 0 {
+		return 1
+	}
+	if len(c.inconclusive) > 0 {
+		return 2
+	}
+	return 0
+}
+
+func (c *checker) isKnown(id string) *KnownFinding {
+	for i := range c.known.Findings {
+		if c.known.Findings[i].ID == id && c.known.Findings[i].Property == c.prop {
+			return &c.known.Findings[i]
+		}
+	}
+	return nil
+}
+
+func (c *checker) runUnit(ui int, u UnitSpec) {
+	harness := map[string]string{}
+	for _, h := range u.Harness {
+		harness[filepath.Base(h)] = filepath.Join(c.verif, h)
+	}
+	// refuse harness files without the verif build tag
+	for _, real := range harness {
+		b, err := os.ReadFile(real)
+		if err != nil || !bytes.Contains(b, []byte("//go:build verif")) {
+			c.inconclusive = append(c.inconclusive, "harness-build: "+real+" missing or without //go:build verif")
+			return
+		}
+	}
+	work := filepath.Join(c.verif, ".work", fmt.Sprintf("%s-%d-%d", c.prop, ui, os.Getpid()))
+	defer os.RemoveAll(work)
+	p, err := Load(c.repo, u.Package, harness, work)
+	if err != nil {
+		c.inconclusive = append(c.inconclusive, "harness-build: "+firstLines(err.Error(), 6))
+		return
+	}
+	for _, e := range u.Entries {
+		if c.only != "" && e.Func != c.only {
+			continue
+		}
+		if e.ThoroughOnly && c.tier != "thorough" {
+			continue
+		}
+		c.runEntry(p, u, e, work)
+	}
+}
+
+func firstLines(s string, n int) string {
+	ls := strings.Split(s, "\n")
+	if len(ls) > n {
+		ls = ls[:n]
+	}
+	return strings.Join(ls, " ; ")
+}
+
+func (c *checker) runEntry(p *Program, u UnitSpec, e EntrySpec, work string) {
+	cfg := Config{Workers: c.workers, Preemptions: -1, Params: map[string]int{}, Stubs: map[string]string{}}
+	params := e.Quick
+	if c.tier == "thorough" && e.Thorough != nil {
+		params = e.Thorough
+	}
+	for k, v := range params {
+		cfg.Params[k] = v
+	}
+	for k, v := range u.Stubs {
+		cfg.Stubs[k] = v
+		c.stubsUsed[k] = v
+	}
+	if p.Target.Func("vErrorsIs") != nil {
+		if _, ok := cfg.Stubs["errors.Is"]; !ok {
+			cfg.Stubs["errors.Is"] = "vErrorsIs"
+			c.stubsUsed["errors.Is"] = "vErrorsIs (shim, chain walk without reflection)"
+		}
+	}
+	if e.Preemptions != nil {
+		cfg.Preemptions = *e.Preemptions
+	}
+	if c.tier == "quick" && e.PreemptQuick != nil {
+		cfg.Preemptions = *e.PreemptQuick
+	}
+	cfg.MaxPaths = e.MaxPaths
+	if cfg.MaxPaths == 0 {
+		cfg.MaxPaths = 400000
+	}
+	cfg.SolverKind = e.Solver
+	cfg.MaxSteps = e.MaxSteps
+	cfg.PoolAdversarial = e.PoolAdv
+	cfg.FixedClock = e.FixedClock
+	cfg.InvisibleAtomics = e.InvisAtomics
+	cfg.MapReverse = e.MapReverse
+	cfg.SymIndexLimit = e.SymIndexLimit
+	cfg.SolverTimeoutMs = e.TimeoutMs
+	if cfg.SolverTimeoutMs == 0 {
+		if c.tier == "thorough" {
+			cfg.SolverTimeoutMs = 120000
+		} else {
+			cfg.SolverTimeoutMs = 20000
+		}
+	}
+	cfg.Seed = c.seed
+	if e.Replay != "engine" && e.Replay != "none" {
+		cfg.SampleModels = e.SelfCheck
+		if cfg.SampleModels == 0 {
+			cfg.SampleModels = 6
+			if c.tier == "thorough" {
+				cfg.SampleModels = 24
+			}
+		}
+	}
+	cfg.Defaults()
+	p.Cfg = cfg
+	p.replCache.Range(func(k, v interface{}) bool { p.replCache.Delete(k); return true })
+
+	r := p.RunEntry(e.Func)
+	rep := entryReport{Func: e.Func, Package: u.Package, Params: cfg.Params, Bound: e.Bound, Paths: r.Paths, Infeasible: r.Infeasible, Blocks: r.Blocks,
+		Queries: r.Queries, Sat: r.SatN, Unsat: r.UnsatN, Unknown: r.UnknownN, SolverS: r.SolverTime.Seconds(), WallS: r.Wall.Seconds(),
+		Asserts: len(r.Asserts), Violations: len(r.Violations), Solver: cfg.SolverKind}
+	if rep.Solver == "" {
+		rep.Solver = "z3"
+	}
+	for k := range r.Reached {
+		rep.Reached = append(rep.Reached, k)
+	}
+	sort.Strings(rep.Reached)
+	for k := range r.Funcs {
+		c.funcs[k] = true
+	}
+	c.states += r.Paths - r.Infeasible
+	c.transitions += r.Blocks
+	c.queries += r.Queries
+	c.discharged += r.UnsatN
+	c.solverS += r.SolverTime.Seconds()
+	for _, m := range r.Inconclusive {
+		c.inconclusive = append(c.inconclusive, e.Func+": "+m)
+	}
+	for _, tag := range e.MustReach {
+		if !r.Reached[tag] && len(r.Inconclusive) == 0 && len(r.Violations) == 0 {
+			c.inconclusive = append(c.inconclusive, fmt.Sprintf("%s: vacuous: reach tag %q never reached", e.Func, tag))
+		}
+	}
+	if len(r.Asserts) == 0 && len(r.Inconclusive) == 0 && len(r.Violations) == 0 {
+		c.inconclusive = append(c.inconclusive, e.Func+": vacuous: no assertion reached")
+	}
+	for _, s := range r.Samples {
+		if len(c.samples) < 12 {
+			c.samples = append(c.samples, map[string]interface{}{"entry": e.Func, "observed": s})
+		}
+	}
+	// violations: group by (known id, kind, msg-site), replay the shortest of each group
+	type grp struct {
+		v *Violation
+		n int
+	}
+	groups := map[string]*grp{}
+	var order []string
+	for _, v := range r.Violations {
+		key := v.Known + "|" + v.Kind + "|" + v.Pos + "|" + strings.SplitN(v.Msg, "[", 2)[0]
+		if g, ok := groups[key]; ok {
+			g.n++
+			continue
+		}
+		groups[key] = &grp{v, 1}
+		order = append(order, key)
+	}
+	knownSeen := map[string]bool{}
+	for _, key := range order {
+		g := groups[key]
+		v := g.v
+		mode := e.Replay
+		if mode == "" {
+			mode = "native"
+		}
+		dir := filepath.Join(c.verif, "replays", c.prop, fmt.Sprintf("%d", c.replayN))
+		c.replayN++
+		confirmed, how := c.replay(p, u, e, v, dir, mode, cfg.Params)
+		sample := map[string]interface{}{"entry": e.Func, "violation": v.Kind, "msg": v.Msg, "pos": v.Pos, "nd": v.ND, "replay": how, "known_finding": v.Known}
+		if len(c.samples) < 12 {
+			c.samples = append(c.samples, sample)
+		}
+		if !confirmed {
+			c.inconclusive = append(c.inconclusive, fmt.Sprintf("%s: counterexample did not reproduce (%s): %s at %s", e.Func, how, v.Msg, v.Pos))
+			continue
+		}
+		c.validated++
+		if v.Known != "" {
+			if kf := c.isKnown(v.Known); kf != nil {
+				if !knownSeen[v.Known] {
+					knownSeen[v.Known] = true
+					c.knownLines = append(c.knownLines, fmt.Sprintf("KNOWN-FINDING: property=%s %s: %s", c.prop, kf.ID, kf.What))
+				}
+				continue
+			}
+		}
+		c.violations++
+		c.violLines = append(c.violLines, fmt.Sprintf("VIOLATION property=%s replay=%s", c.prop, filepath.Join(dir, "run.sh")))
+		fmt.Printf("  violation in %s: %s: %s at %s  nd=%s\n", e.Func, v.Kind, v.Msg, v.Pos, ndString(v.ND))
+	}
+	// translator self-check on passing paths
+	if len(r.Violations) == 0 && len(r.Inconclusive) == 0 && e.Replay != "engine" && e.Replay != "none" {
+		ok, bad := c.selfCheck(p, u, e, cfg.Params, r.Models, work)
+		rep.SelfCheck = ok
+		c.validated += ok
+		if bad != "" {
+			c.inconclusive = append(c.inconclusive, e.Func+": translator-mismatch: "+bad)
+		}
+	}
+	if len(c.samples) < 12 {
+		c.samples = append(c.samples, map[string]interface{}{"entry": e.Func, "obligation": "for all inputs within the bound: every vAssert holds and no panic on any feasible path",
+			"params": cfg.Params, "paths": r.Paths, "queries": r.Queries, "unsat": r.UnsatN, "sat": r.SatN, "verdict": verdictOf(r), "ms": int(r.Wall.Milliseconds())})
+	}
+	c.reports = append(c.reports, rep)
+}
+
+func verdictOf(r *Result) string {
+	if len(r.Violations) > 0 {
+		return "counterexample"
+	}
+	if len(r.Inconclusive) > 0 {
+		return "inconclusive"
+	}
+	return "holds within bound"
+}
+
+func ndString(nd []NDValue) string {
+	var parts []string
+	for _, n := range nd {
+		if n.Kind == "clock" && len(nd) > 12 {
+			continue
+		}
+		parts = append(parts, fmt.Sprintf("%s=%v", n.Name, n.Vals))
+	}
+	s := strings.Join(parts, " ")
+	if len(s) > 600 {
+		s = s[:600] + "…"
+	}
+	return s
+}
+
+// ---------------------------------------------------------------------
+// replay
+
+type cexFile struct {
+	ND     []NDValue      `json:"nd"`
+	Params map[string]int `json:"params"`
+	Entry  string         `json:"entry"`
+	Msg    string         `json:"msg"`
+}
+
+const replayTestTmpl = `//go:build verif
+
+package %s
+
+import (
+	"fmt"
+	"os"
+	"path/filepath"
+	"sort"
+	"testing"
+)
+
+var zzEntries = map[string]func(){
+%s}
+
+func zzRunOne(t *testing.T, cex string) (failed string) {
+	defer func() {
+		if r := recover(); r != nil {
+			failed = fmt.Sprint(r)
+		}
+	}()
+	vResetCex(cex)
+	zzEntries[vCexEntry()]()
+	return ""
+}
+
+func TestZZReplay(t *testing.T) {
+	path := os.Getenv("VERIF_CEX")
+	files := []string{path}
+	if fi, err := os.Stat(path); err == nil && fi.IsDir() {
+		files, _ = filepath.Glob(filepath.Join(path, "*.json"))
+		sort.Strings(files)
+	}
+	for _, f := range files {
+		if msg := zzRunOne(t, f); msg != "" {
+			t.Errorf("REPLAY-FAIL %%s: %%s", filepath.Base(f), msg)
+		} else {
+			fmt.Printf("REPLAY-PASS %%s\n", filepath.Base(f))
+		}
+	}
+}
+`
+
+func (c *checker) writeReplayDir(p *Program, u UnitSpec, dir string, entries []string) (string, error) {
+	if err := os.MkdirAll(dir, 0o755); err != nil {
+		return "", err
+	}
+	pkgName := p.Target.Pkg.Name()
+	overlay := map[string]string{}
+	pkgDir := filepath.Join(c.repo, u.Package)
+	for _, h := range u.Harness {
+		b, err := os.ReadFile(filepath.Join(c.verif, h))
+		if err != nil {
+			return "", err
+		}
+		b = []byte(strings.Replace(string(b), "package PKGNAME", "package "+pkgName, 1))
+		dst := filepath.Join(dir, filepath.Base(h))
+		if err := os.WriteFile(dst, b, 0o644); err != nil {
+			return "", err
+		}
+		overlay[filepath.Join(pkgDir, filepath.Base(h))] = dst
+	}
+	var sb strings.Builder
+	for _, e := range entries {
+		fmt.Fprintf(&sb, "\t%q: %s,\n", e, e)
+	}
+	test := fmt.Sprintf(replayTestTmpl, pkgName, sb.String())
+	tp := filepath.Join(dir, "zz_verif_replay_test.go")
+	if err := os.WriteFile(tp, []byte(test), 0o644); err != nil {
+		return "", err
+	}
+	overlay[filepath.Join(pkgDir, "zz_verif_replay_test.go")] = tp
+	ob, _ := json.MarshalIndent(map[string]interface{}{"Replace": overlay}, "", " ")
+	op := filepath.Join(dir, "overlay.json")
+	if err := os.WriteFile(op, ob, 0o644); err != nil {
+		return "", err
+	}
+	for _, n := range []string{"go.mod", "go.sum"} {
+		b, err := os.ReadFile(filepath.Join(c.repo, n))
+		if err != nil {
+			return "", err
+		}
+		os.WriteFile(filepath.Join(dir, n), b, 0o644)
+	}
+	run := fmt.Sprintf(`#!/bin/bash
+# replays the counterexample(s) in this directory against %s with the harness overlaid (nothing is written into the repository)
+cd %s
+export GOFLAGS=-mod=mod GOPROXY=off GOSUMDB=off GOTOOLCHAIN=local
+VERIF_CEX="${VERIF_CEX:-%s}" exec go test -v -tags verif -vet=off -count=1 -timeout 120s -modfile=%s -overlay %s -run 'TestZZReplay$' %s
+`, c.repo, c.repo, filepath.Join(dir, "cex.json"), filepath.Join(dir, "go.mod"), op, u.Package)
+	rp := filepath.Join(dir, "run.sh")
+	if err := os.WriteFile(rp, []byte(run), 0o755); err != nil {
+		return "", err
+	}
+	return rp, nil
+}
+
+func (c *checker) replay(p *Program, u UnitSpec, e EntrySpec, v *Violation, dir, mode string, params map[string]int) (bool, string) {
+	rp, err := c.writeReplayDir(p, u, dir, []string{e.Func})
+	if err != nil {
+		return false, "replay setup failed: " + err.Error()
+	}
+	cb, _ := json.MarshalIndent(cexFile{ND: v.ND, Params: params, Entry: e.Func, Msg: v.Msg}, "", " ")
+	os.WriteFile(filepath.Join(dir, "cex.json"), cb, 0o644)
+	if mode == "engine" || mode == "none" {
+		// stubs of this harness have no native counterpart: the counterexample was produced and is re-checked by the engine only
+		os.WriteFile(filepath.Join(dir, "run.sh"), []byte(fmt.Sprintf("#!/bin/bash\n# engine-level counterexample (harness uses stubs without a native counterpart)\ncat %s\nexit 1\n", filepath.Join(dir, "cex.json"))), 0o755)
+		return true, "engine"
+	}
+	cmd := exec.Command("bash", rp)
+	out, _ := cmd.CombinedOutput()
+	os.WriteFile(filepath.Join(dir, "replay.log"), out, 0o644)
+	s := string(out)
+	if strings.Contains(s, "VERIF-DIVERGED") {
+		return false, "native run diverged from the engine's path"
+	}
+	if strings.Contains(s, "REPLAY-FAIL") {
+		return true, "native"
+	}
+	if strings.Contains(s, "REPLAY-PASS") {
+		return false, "native run passed"
+	}
+	return false, "native replay did not run: " + firstLines(s, 3)
+}
+
+// selfCheck takes models of completed paths and runs them natively: the native run must follow the same
+// nd sequence and pass every assertion.
+func (c *checker) selfCheck(p *Program, u UnitSpec, e EntrySpec, params map[string]int, models [][]NDValue, work string) (int, string) {
+	if len(models) == 0 {
+		return 0, ""
+	}
+	dir := filepath.Join(work, "selfcheck-"+e.Func)
+	rp, err := c.writeReplayDir(p, u, dir, []string{e.Func})
+	if err != nil {
+		return 0, "self-check setup failed: " + err.Error()
+	}
+	cdir := filepath.Join(dir, "cex")
+	os.MkdirAll(cdir, 0o755)
+	for i, nd := range models {
+		cb, _ := json.Marshal(cexFile{ND: nd, Params: params, Entry: e.Func})
+		os.WriteFile(filepath.Join(cdir, fmt.Sprintf("m%03d.json", i)), cb, 0o644)
+	}
+	cmd := exec.Command("bash", rp)
+	cmd.Env = append(os.Environ(), "VERIF_CEX="+cdir)
+	out, _ := cmd.CombinedOutput()
+	s := string(out)
+	pass := strings.Count(s, "REPLAY-PASS")
+	if strings.Contains(s, "REPLAY-FAIL") {
+		for _, l := range strings.Split(s, "\n") {
+			if strings.Contains(l, "REPLAY-FAIL") {
+				return pass, strings.TrimSpace(l)
+			}
+		}
+	}
+	if pass != len(models) {
+		return pass, "native self-check did not run: " + firstLines(s, 4)
+	}
+	return pass, ""
+}
+
+// ---------------------------------------------------------------------
+// evidence
+
+func (c *checker) writeEvidence(wall float64) {
+	var funcs []string
+	for k := range c.funcs {
+		funcs = append(funcs, k)
+	}
+	sort.Strings(funcs)
+	if len(c.samples) == 0 {
+		c.samples = append(c.samples, map[string]interface{}{"note": "no entry completed"})
+	}
+	stubs := []string{}
+	for k, v := range c.stubsUsed {
+		stubs = append(stubs, k+" -> "+v)
+	}
+	sort.Strings(stubs)
+	stubs = append(stubs, c.spec.StubsDoc...)
+	cov := map[string]interface{}{
+		"states":                        c.states,
+		"transitions":                   c.transitions,
+		"traces_validated_against_impl": c.validated,
+		"samples":                       c.samples,
+		"rule":                          "states = feasible symbolic paths completed by the SSA executor; transitions = SSA basic blocks executed symbolically; traces_validated = native runs (replays and solver models of passing paths) that agreed with the engine",
+		"functions_encoded":             funcs,
+		"entries":                       c.reports,
+		"queries":                       c.queries,
+		"discharged_unsat":              c.discharged,
+		"solver_time_s":                 c.solverS,
+		"solvers":                       []string{"z3 4.8.12 (-in, incremental push/pop)"},
+		"stubs":                         stubs,
+		"outside_claim":                 c.spec.OutsideClaim,
+		"inconclusive":                  c.inconclusive,
+		"known_findings_seen":           c.knownLines,
+		"repo_rev":                      gitRev(c.repo),
+		"exhaustive":                    false,
+	}
+	ev := map[string]interface{}{
+		"property_id": c.prop,
+		"tier":        c.tier,
+		"seed":        c.seed,
+		"level":       "model_checking",
+		"coverage":    cov,
+		"assumptions": c.spec.Assumptions,
+		"wall_s":      wall,
+		"violations":  c.violations,
+	}
+	if c.states == 0 {
+		cov["states"] = 0
+	}
+	b, _ := json.MarshalIndent(ev, "", " ")
+	os.MkdirAll(filepath.Join(c.verif, "evidence"), 0o755)
+	os.WriteFile(filepath.Join(c.verif, "evidence", c.prop+".json"), b, 0o644)
+}
+
+func gitRev(repo string) string {
+	out, err := exec.Command("git", "-C", repo, "rev-parse", "--short", "HEAD").Output()
+	if err != nil {
+		return "unknown"
+	}
+	st, _ := exec.Command("git", "-C", repo, "status", "--porcelain").Output()
+	r := strings.TrimSpace(string(out))
+	if len(bytes.TrimSpace(st)) > 0 {
+		r += "+dirty"
+	}
+	return r
+}
